@@ -8,7 +8,7 @@ func init() {
 	for w, n := range names {
 		specs = append(specs, LLSpec{File: "c03.c", Func: "harness_history_copy", Label: fmt.Sprintf("[%s]", n), Params: map[string]int{"WHICH": w}, Reach: []string{"history/done"}})
 	}
-	for _, f := range []string{"f1", "f2", "f3", "f4", "f5", "f6", "f7", "transform"} {
+	for _, f := range []string{"f1", "f2", "f3", "f4", "f5", "f6", "f7", "f9", "transform"} {
 		specs = append(specs, LLSpec{File: "c03.c", Func: "harness_any_" + f, Params: map[string]int{"N": 6, "CALLS": 2}, ParamsT: map[string]int{"N": 8, "CALLS": 3}, Reach: []string{"any/done"}})
 	}
 	specs = append(specs,
